@@ -223,6 +223,10 @@ async fn run_inner(sc: &C17Scenario, path: &std::path::Path) -> u64 {
             ops.push((2, j));
             ops.push((3, j));
         }
+        if held.len() < sc.ms {
+            // a caller that takes a connection and gives it back without sending anything
+            ops.push((4, 0));
+        }
         ops.push((9, 0));
         let (op, arg) = ops[choose_free(ops.len())];
         explorer::count_step();
@@ -236,6 +240,7 @@ async fn run_inner(sc: &C17Scenario, path: &std::path::Path) -> u64 {
                     w.log.push(format!("get/{:?}", ans));
                 });
                 let conns_before = w(|w| w.conns.len());
+                let pings_before = w(|w| w.pings.len());
                 let size_before = pool.status().size;
                 let r = pool.timeout_get(&nb).await;
                 let consumed = w(|w| w.next_answer.take().is_none());
@@ -250,6 +255,9 @@ async fn run_inner(sc: &C17Scenario, path: &std::path::Path) -> u64 {
                             });
                             if doomed {
                                 bad("unsynchronised-connection-reissued", format!("connection {} whose PING was answered with {:?} was handed out", id, last));
+                            }
+                            if handed_before.contains(&id) && w(|w| w.pings.len()) == pings_before {
+                                bad("reused-without-recycle-round-trip", format!("connection {} was handed out again without an UNWATCH + PING round trip during this get()", id));
                             }
                             if handed_before.contains(&id) {
                                 // reused: exactly UNWATCH then PING n, fresh n, correct echo, no WATCH left
@@ -290,6 +298,17 @@ async fn run_inner(sc: &C17Scenario, path: &std::path::Path) -> u64 {
                 }
                 w(|w| w.next_answer = None);
                 let _ = size_before;
+            }
+            4 => {
+                trace!("get and return without sending anything");
+                w(|w| w.log.push("get-unused".into()));
+                match pool.timeout_get(&nb).await {
+                    Ok(c) => drop(c),
+                    Err(PoolError::Backend(e)) => {
+                        trace!("  -> backend error {}", e);
+                    }
+                    Err(e) => bad("get-failed", format!("get() with a free slot failed: {:?}", e)),
+                }
             }
             1 => {
                 let (c, id) = held.remove(arg);
